@@ -176,3 +176,20 @@ Definition get_period_offsets (pbd days:list Z) (in_range:option (list bool)) : 
       Ok (scatter days fl vals)
     else Raise E_IndexError
   end.
+
+(* ---- the code BEFORE the fixes, kept only to state the `_refuted` theorems ---- *)
+(* F-C20c: get_period_offsets indexed the map for every entry (0 where the flag is off):
+     periods = np.where(in_range, days, 0); periods = periods_by_day[periods];
+     periods = np.where(in_range, periods, -1) *)
+Definition get_period_offsets_prefix (pbd days:list Z) (fl:list bool) : res (list Z) :=
+  do idx <- bcast (fun (b:bool) (d:Z) => if b then d else 0) fl days;
+  do per <- map_res (np_index 2 pbd) idx;
+  bcast (fun (b:bool) (p:Z) => if b then p else -1) fl per.
+
+(* F-C20a: an int8 filter was used as an integer index array: min(date_field[[0,0,1,1]]) *)
+Definition get_days_origin_int8_prefix (ts:list Z) (f:list bool) : res Z :=
+  do sel <- map_res (fun b:bool => np_index 3 ts (if b then 1 else 0)) f;
+  match minimum sel with
+  | None => Raise E_ValueError
+  | Some m => Ok m
+  end.
